@@ -17,12 +17,12 @@ BATCH = 8
 RULE = ('one evaluation = one seeded simulated run of 2-4 contenders (threads sharing one cache object / own objects in one process / '
         'separate simulated processes; Cache or FanoutCache) each looping acquire -> critical section (seam yields + virtual sleep) -> '
         'release on a Lock, RLock (nested 1-3 deep), BoundedSemaphore (value 1-3) or barrier-wrapped functions (two different functions under one barrier name, in some runs next to the primitive itself on that name), with optional '
-        'release-without-acquire attempts; each contender uses explicit acquire/release or a with statement, and in seeded rounds the critical section (or the barrier-wrapped function) raises; a witness independent of the cache counts holders on every entry; the run must finish, the exception of the section must come out unchanged and the stored state must say free at the end '
+        'release-without-acquire attempts; each contender uses explicit acquire/release, a with statement, or a fresh handle object for every acquire and release (dropped and collected in between), and in seeded rounds the critical section (or the barrier-wrapped function) raises; a witness independent of the cache counts holders on every entry; the run must finish, the exception of the section must come out unchanged and the stored state must say free at the end '
         '(every waiter eventually acquires); non-trivial = at least one context switch inside a critical section or a contended '
         'acquire; distinct = SHA-256 of the seam event log')
 ASSUMPTIONS = ['polling acquire loops (1 ms virtual sleeps) are run with critical sections of at most a few virtual milliseconds',
                'lock keys carry no expiry in this check']
-PROBES = ('contended_acquire', 'nested_rlock', 'bad_release_refused', 'lock_wait', 'barrier_calls', 'with_statement', 'cs_raised', 'barrier_mixed_with_primitive')
+PROBES = ('contended_acquire', 'nested_rlock', 'bad_release_refused', 'lock_wait', 'barrier_calls', 'with_statement', 'cs_raised', 'barrier_mixed_with_primitive', 'fresh_handles')
 TECHNIQUE = 'deterministic simulation: seeded schedules of contenders with virtual-time polling; holder-count witness invariant checked at every critical-section entry; bounded-progress check'
 LEVEL_TEXT = ('seeded exploration of contender interleavings at seam granularity (and source lines for shared objects) with a witness '
               'invariant (holders <= 1, <= value for the semaphore, re-entrancy only by the owner) evaluated during the run, plus '
@@ -53,7 +53,9 @@ def gen_case(seed, tier):
     # barrier: contenders call two DIFFERENT functions wrapped under one barrier name, and (in some runs) the last contender
     # uses the primitive itself on that name - all of them are one exclusion group
     cfg['barrier_mix'] = rng.random() < 0.4
-    cfg['style'] = [rng.choice(('explicit', 'with')) for _ in range(n)]
+    # 'handles': every acquire and every release goes through a fresh Lock / RLock / BoundedSemaphore object on the same key -
+    # the state lives in the cache, the objects are interchangeable handles that may be dropped at any time
+    cfg['style'] = [rng.choice(('explicit', 'with', 'handles')) for _ in range(n)]
     cfg['raises'] = [[rng.random() < 0.2 for _ in range(cfg['iters'])] for _ in range(n)]
     if cfg['topology'] == 'shared':
         cfg['line_p'] = rng.choice((0.0, 0.0, 0.05))
@@ -223,6 +225,23 @@ def run_case(case):
                         if style == 'with':
                             probes['with_statement'] = probes.get('with_statement', 0) + 1
                             nested(0)
+                        elif style == 'handles' and not forked:
+                            import gc
+                            probes['fresh_handles'] = probes.get('fresh_handles', 0) + 1
+                            taken = 0
+                            try:
+                                for dlevel in range(depth):
+                                    make_prim(cache).acquire()
+                                    gc.collect()      # the handle that acquired is gone; the primitive is still held
+                                    taken += 1
+                                    enter(name)
+                                    if dlevel:
+                                        probes['nested_rlock'] = 1
+                                held()
+                            finally:
+                                for dlevel in range(taken):
+                                    leave(name)
+                                    make_prim(cache).release()
                         else:
                             taken = 0
                             try:
